@@ -310,6 +310,9 @@ class RankEnv:
             return
         rop = self.plan['_restart_op']
         ci = rop.get('compute_inverses', True)
+        # state outside K-FAC (what an external-state callable reads) is
+        # restored from its own checkpoint before K-FAC is loaded
+        self.ext.it = ck.get('ext_it', 0)
         self.model.load_state_dict(_de(ck['model']))
         if self.twin is not None:
             self.twin.load_state_dict(_de(ck['model']))
@@ -760,7 +763,7 @@ class RankEnv:
             self.store.ckpt = {
                 'kfac': _ser(sd), 'model': _ser(self.model.state_dict()),
                 'opt': _ser(self.opt.state_dict()), 'op_index': rec['i'],
-                'inc': self.inc,
+                'inc': self.inc, 'ext_it': self.ext.it,
             }
             self.store.n_saves += 1
         self.sim.probe('checkpoint_saved')
